@@ -6,6 +6,56 @@ import os
 ROOT = os.path.dirname(os.path.dirname(os.path.abspath(__file__)))
 
 CHECKS = {
+    "C01": dict(
+        cat="model_checking", engine="Qcow2",
+        text="spec/Qcow2.tla defines the QCOW2 guest view from qcow2.txt; TLC checks an implementation-shaped transcription of the "
+             "reader's run-building loop against it for every image/request in the small scope; every enumerated image is encoded "
+             "independently and replayed on the real reader at several concretisations (direction A: cluster bits 9..21 by scale embedding, v2/v3 headers, extended L2, data file, short backing, compressed clusters, host offsets up to 2^55); recorded traces of "
+             "random operation sequences on random real-geometry images are validated by TLC against TraceDisk (direction B).",
+        note="trusts TLC, the independent encoder (harness/enc_*.py, written from the format specification) and the location-coded "
+             "pattern codec; exhaustive only within the stated constants; bit-level layout covered by concretisation sweeps",
+        technique="TLA+ spec + TLC exhaustive enumeration, replay of TLC states into the real reader, TLC trace validation",
+        design="5/C01"),
+    "C02": dict(
+        cat="model_checking", engine="Vmdk",
+        text="spec/Vmdk.tla defines the VMDK sparse-extent guest view from the VMDK 5.0 specification / libvmdk / qemu vmdk.c; TLC checks an implementation-shaped transcription of the "
+             "reader's run-building loop against it for every image/request in the small scope; every enumerated image is encoded "
+             "independently and replayed on the real reader at several concretisations (direction A: hosted header/footer GD, stream-optimised, COWD, SE-sparse, flat; real table sizes by scale embedding); recorded traces of "
+             "random operation sequences on random real-geometry images are validated by TLC against TraceDisk (direction B).",
+        note="trusts TLC, the independent encoder (harness/enc_*.py, written from the format specification) and the location-coded "
+             "pattern codec; exhaustive only within the stated constants; bit-level layout covered by concretisation sweeps",
+        technique="TLA+ spec + TLC exhaustive enumeration, replay of TLC states into the real reader, TLC trace validation",
+        design="5/C02"),
+    "C03": dict(
+        cat="model_checking", engine="Vhdx",
+        text="spec/Vhdx.tla defines the VHDX guest view from [MS-VHDX]; TLC checks an implementation-shaped transcription of the "
+             "reader's run-building loop against it for every image/request in the small scope; every enumerated image is encoded "
+             "independently and replayed on the real reader at several concretisations (direction A: block sizes 1..256 MiB, 512/4096-byte sectors, chunk ratios 16..4096 with interleaved sector-bitmap entries, MB offsets up to the 44-bit limit); recorded traces of "
+             "random operation sequences on random real-geometry images are validated by TLC against TraceDisk (direction B).",
+        note="trusts TLC, the independent encoder (harness/enc_*.py, written from the format specification) and the location-coded "
+             "pattern codec; exhaustive only within the stated constants; bit-level layout covered by concretisation sweeps",
+        technique="TLA+ spec + TLC exhaustive enumeration, replay of TLC states into the real reader, TLC trace validation",
+        design="5/C03"),
+    "C04": dict(
+        cat="model_checking", engine="Vhd",
+        text="spec/Vhd.tla defines the VHD guest view from the VHD 1.0 specification; TLC checks an implementation-shaped transcription of the "
+             "reader's run-building loop against it for every image/request in the small scope; every enumerated image is encoded "
+             "independently and replayed on the real reader at several concretisations (direction A: fixed/dynamic, block sizes 1 KiB..16 MiB (1/2/8 bitmap sectors), 511-byte footer, sizes not a block multiple); recorded traces of "
+             "random operation sequences on random real-geometry images are validated by TLC against TraceDisk (direction B).",
+        note="trusts TLC, the independent encoder (harness/enc_*.py, written from the format specification) and the location-coded "
+             "pattern codec; exhaustive only within the stated constants; bit-level layout covered by concretisation sweeps",
+        technique="TLA+ spec + TLC exhaustive enumeration, replay of TLC states into the real reader, TLC trace validation",
+        design="5/C04"),
+    "C06": dict(
+        cat="model_checking", engine="Hds",
+        text="spec/Hds.tla defines the Parallels HDS/HDD guest view from parallels.txt / prl-xml.txt; TLC checks an implementation-shaped transcription of the "
+             "reader's run-building loop against it for every image/request in the small scope; every enumerated image is encoded "
+             "independently and replayed on the real reader at several concretisations (direction A: v1 sector-granular and v2 cluster entries, cluster sizes 1 KiB..8 MiB, through HDS(fh) and HDD(path).open(), plain images); recorded traces of "
+             "random operation sequences on random real-geometry images are validated by TLC against TraceDisk (direction B).",
+        note="trusts TLC, the independent encoder (harness/enc_*.py, written from the format specification) and the location-coded "
+             "pattern codec; exhaustive only within the stated constants; bit-level layout covered by concretisation sweeps",
+        technique="TLA+ spec + TLC exhaustive enumeration, replay of TLC states into the real reader, TLC trace validation",
+        design="5/C06"),
     "C05": dict(
         cat="model_checking", engine="Vdi",
         text="spec/Vdi.tla defines the VDI guest view from VDICore.h; TLC checks a transcription of VDI._read against it for "
